@@ -186,9 +186,14 @@ def f_copy(case):
             C.expect_list(B.read_list(b), B.read_list(a), 'copy of %s acts differently (%s)' % (kind, direction), 'copy-action')
         cp = orig.copy()      # lazily filled maps may differ now: take a fresh copy for the mutation history
     # history: mutate one side, re-observe the other
+    corrupted = {True: False, False: False}
     for i, (side, m) in enumerate(case['history']):
         target, other = (cp, orig) if side else (orig, cp)
         snap = B.snapshot(other)
+        if corrupted[bool(side)] and m['t'] != 'arrays':
+            continue        # raw array writes leave an invalid object: no further API calls on that side (they would be out of domain)
+        if m['t'] == 'arrays':
+            corrupted[bool(side)] = True
         try:
             mutate(target, kind, N, m)
         except Mismatch:
